@@ -97,6 +97,12 @@ def edits(rng, sc):
     yield 'sizer optional', with_struct('Brk', [S.Member('n', 'u32', 'optional'), S.Member('x', 'u8', 'dynext', sizer='n')])
     yield 'sizer not an integer', with_struct('Brk', [S.Member('n', 'r32'), S.Member('x', 'u8', 'dynext', sizer='n')])
     yield 'sizer is an array', with_struct('Brk', [S.Member('n', 'u8', 'fixed', size=2), S.Member('x', 'u8', 'dynext', sizer='n')])
+    yield 'sizer is a dynamic array', with_struct('Brk', [S.Member('k', 'u8'), S.Member('n', 'u8', 'dynext', sizer='k'), S.Member('x', 'u16', 'dynext', sizer='n')])
+    yield 'sizer is a limited array', with_struct('Brk', [S.Member('n', 'u8', 'limited', size=2), S.Member('x', 'u16', 'dynext', sizer='n')])
+    yield 'sizer is an implicitly counted array', with_struct('Brk', [S.Member('n', 'u8', 'dyn'), S.Member('x', 'u16', 'dynext', sizer='n')])
+    yield 'sizer is a greedy array', with_struct('Brk', [S.Member('x', 'u16', 'dynext', sizer='n'), S.Member('n', 'u8', 'greedy')])
+    yield 'sizer is bytes', with_struct('Brk', [S.Member('n', 'byte', 'fixed', size=2), S.Member('x', 'u16', 'dynext', sizer='n')])
+    yield 'sizer is an enum', with_struct('Brk', [S.Member('n', enums[0].name if enums else 'u8') if enums else S.Member('n', 'r64'), S.Member('x', 'u16', 'dynext', sizer='n')])
     if structs:
         st = rng.choice(structs)
         yield 'sizer is a struct', with_struct('Brk', [S.Member('n', st.name), S.Member('x', 'u8', 'dynext', sizer='n')]) if S.struct_kind(sc, st) == S.FIXED else with_struct('Brk', [S.Member('n', 'r64'), S.Member('x', 'u8', 'dynext', sizer='n')])
